@@ -38,6 +38,10 @@ LEVELS = ["NONE", "SUSPICIOUS", "CONFIRMED", "CRITICAL"]
 PAIRS = [("NONE", "IGNORE"), ("SUSPICIOUS", "MONITOR"), ("CONFIRMED", "ISOLATE"), ("CRITICAL", "SHUTDOWN")]
 CANARY = [None, 0.3, 0.49, 0.5, 0.62, 0.63, 1.0]      # canary_min is 0.63 in the T-cell cases
 WORDS = ["alpha", "beta", "gamma", "delta"]
+VIOLATION_PATTERNS = ["vocabulary_hash", "structure_hash", "response_time", "output_length", "confidence", "error_rate", "canary_accuracy", "unknown", "out of bounds"]
+VIOLATION_TEXTS = ["vocabulary_hash unknown: 0123456789ab", "structure_hash unknown: ba9876543210", "response_time out of bounds: 5.000 not in [0.400, 0.600]",
+                   "output_length out of bounds: 40.0 not in [9.0, 13.0]", "confidence out of bounds: 0.20 not in [0.88, 0.92]", "error_rate too high: 50.00% > 5.00%",
+                   "canary_accuracy too low: 0.00% < 90.00%"]
 
 _fp = st.fixed_dictionaries({
     "len": st.sampled_from(POS + ["mid", "mid"]), "time": st.sampled_from(POS + ["mid", "mid"]), "conf": st.sampled_from(POS + ["mid", "mid"]),
@@ -51,6 +55,7 @@ _sstep = st.one_of(
               st.sampled_from([0.2, 0.9, 0.9]), st.sampled_from([None, None, None, "E1"]), st.integers(1, 8)),
     st.tuples(st.just("canary"), st.booleans()),
     st.tuples(st.just("train")), st.tuples(st.just("inspect")), st.tuples(st.just("inspect")), st.tuples(st.just("flag")), st.tuples(st.just("updated")),
+    st.tuples(st.just("tolerate"), st.sampled_from(VIOLATION_PATTERNS)),
 ).map(list)
 
 
@@ -58,7 +63,9 @@ def strategy(tier):
     tcell = st.fixed_dictionaries({"kind": st.just("tcell"), "thr": st.integers(1, 4), "anergy": st.integers(1, 4),
                                    "hist": st.lists(_tstep, min_size=1, max_size=12)})
     treg = st.fixed_dictionaries({"kind": st.just("treg"), "stab": st.integers(0, 3), "clean": st.integers(0, 4), "updated": st.booleans(),
-                                  "rules": st.lists(st.tuples(st.booleans(), st.sampled_from(LEVELS)).map(list), max_size=4), "resp": st.integers(0, 3)})
+                                  "rules": st.lists(st.tuples(st.booleans(), st.sampled_from(LEVELS)).map(list), max_size=4), "resp": st.integers(0, 3),
+                                  "tolerated": st.lists(st.sampled_from(VIOLATION_PATTERNS), max_size=3, unique=True),
+                                  "violations": st.lists(st.sampled_from(VIOLATION_TEXTS), min_size=1, max_size=3, unique=True)})
     _prefix = st.tuples(st.lists(st.sampled_from(WORDS), min_size=1, max_size=2, unique=True), st.integers(1, 3), st.sampled_from([0.5, 1.0]),
                         st.sampled_from([0.2, 0.9])).map(lambda t: [["obs", t[0], t[1], t[2], t[3], None, 4], ["train"]])
     system = st.tuples(_prefix, st.lists(_sstep, min_size=3, max_size=16)).map(lambda t: {"kind": "system", "hist": t[0] + t[1]})
@@ -77,6 +84,11 @@ def enumerate_cases(tier):
         for stab, clean in ((0, 0), (2, 1), (2, 3)):
             for rules in rule_lists:
                 yield {"kind": "treg", "stab": stab, "clean": clean, "updated": False, "rules": rules, "resp": resp}
+        for tol in ([], ["vocabulary_hash"], ["vocabulary_hash", "response_time"], ["unknown", "out of bounds"], list(VIOLATION_PATTERNS)):
+            for viol in (VIOLATION_TEXTS[:1], VIOLATION_TEXTS[:2], VIOLATION_TEXTS[2:4], list(VIOLATION_TEXTS)):
+                for upd in (False, True):
+                    yield {"kind": "treg", "stab": 2, "clean": 0, "updated": upd, "rules": [[True, "CONFIRMED"]] if upd else [], "resp": resp,
+                           "tolerated": tol, "violations": viol}
 
 
 def judge(case):
@@ -214,7 +226,8 @@ def _treg(case, out):
     from operon_ai.surveillance.types import ResponseAction, Signal1, Signal2, ThreatLevel
     lvl, act = PAIRS[case["resp"]]
     resp = ImmuneResponse(agent_id="a", threat_level=getattr(ThreatLevel, lvl), action=getattr(ResponseAction, act),
-                          signal1=Signal1.NON_SELF if lvl != "NONE" else Signal1.SELF, signal2=Signal2.NONE, violations=["x"] if lvl != "NONE" else [])
+                          signal1=Signal1.NON_SELF if lvl != "NONE" else Signal1.SELF, signal2=Signal2.NONE,
+                          violations=list(case.get("violations") or ["x"]) if lvl != "NONE" else [])
     rules = [SuppressionRule(name="r%d" % k, condition=(lambda r, rec, c=c: c), max_severity=getattr(ThreatLevel, ms)) for k, (c, ms) in enumerate(case["rules"])]
     treg = RegulatoryTCell(rules=rules, stability_threshold=case["stab"])
     rec = ToleranceRecord(agent_id="a")
@@ -222,6 +235,8 @@ def _treg(case, out):
         rec.record_inspection(clean=True)
     if case.get("updated"):
         rec.mark_updated()
+    for pat in case.get("tolerated") or []:
+        rec.add_tolerated_violation(pat)
     out.label("treg", "resp:" + lvl)
     out.nontrivial = bool(case["rules"]) or case["clean"] >= case["stab"]
     try:
@@ -284,6 +299,11 @@ def _system(case, out):
                     out.nontrivial = True
             elif kind == "updated":
                 sysm.mark_agent_updated("a")
+            elif kind == "tolerate":
+                rec = sysm.treg.get_record("a")
+                if rec is not None:
+                    rec.add_tolerated_violation(step[1])
+                    out.nontrivial = True
             elif kind == "inspect":
                 if not trained:
                     out.skipped += 1
@@ -322,6 +342,12 @@ def _system(case, out):
                     return
                 if anergic and (lvl, act) != ("NONE", "IGNORE"):
                     out.fail("anergic-watcher-not-silent:system", "desensitised watcher reported %s/%s" % (lvl, act), d)
+                    return
+                order = ["IGNORE", "MONITOR", "ISOLATE", "SHUTDOWN"]
+                base = dict(PAIRS)[lvl]
+                if act not in order or order.index(act) > order.index(base) or order.index(base) - order.index(act) > 1 or (lvl == "CRITICAL" and act != "SHUTDOWN"):
+                    out.fail("treg:more-than-one-step:system" if lvl != "CRITICAL" else "treg:critical-softened:system",
+                             "threat level %s (watcher recommends %s) came back with action %s" % (lvl, base, act), d)
                     return
                 if lvl in ("CONFIRMED", "CRITICAL") or act in ("ISOLATE", "SHUTDOWN"):
                     if not second:
